@@ -6,13 +6,13 @@ props = [json.loads(l) for l in open(os.path.join(VERIF, "properties.jsonl"))]
 PY = "/venv/bin/python"
 
 CLAIMED = {
- "C01": dict(engine="store", technique="TLA+ spec Store.tla model-checked by TLC (all store kinds); TLC-exported state graph walked on the real classes; recorded traces validated by TLC against Trace_Store.tla (T_C01_*)",
-   text="Design level: TLC proves M_C01_Cap / M_C01_PutHonoured on the complete graph of each store kind for small bounds with unbounded histories (canonical renumbering). Implementation level: every (state, call) pair of the exported graph is executed on the real class with the model state compared after each step, and every recorded event (graph walks + random histories with larger capacities) is judged by TLC with the ledger clauses T_C01_Cap, T_C01_PutHonoured, T_C01_Occupancy.",
+ "C01": dict(engine="store", technique="TLA+ spec Store.tla model-checked by TLC (all store kinds); TLC-exported state graph walked on the real classes; recorded traces validated by TLC against Trace_Store.tla (T_C01_*, incl. T_C01_NoBreakdown: no exception out of the store's own processes after a put)",
+   text="Design level: TLC proves M_C01_Cap / M_C01_PutHonoured on the complete graph of each store kind for small bounds with unbounded histories (canonical renumbering). Implementation level: every (state, call) pair of the exported graph is executed on the real class with the model state compared after each step, and every recorded event (graph walks + random histories with larger capacities) is judged by TLC with the ledger clauses T_C01_Cap, T_C01_PutHonoured, T_C01_Occupancy, T_C01_NoBreakdown. Kinds: the three time-less stores, buffer (FIFO/LIFO), fleet and the slotted belt store behind the slotted conveyor as model kinds (graph walk); the continuous belt store by timed random histories.",
    ref="5 C01, 3.2, 4.3, 4.4"),
  "C02": dict(engine="store", technique="TLC model checking of Store.tla (M_C02_*); TLC trace validation with hidden-binding inference (Trace_StoreBind.tla) and ledger clauses (Trace_Store.tla)",
    text="Item conservation and distinct backing of granted retrievals: invariants of the model for all kinds; on real traces the ledger clauses T_C02_GetFresh/Backed/GetHonoured/NoInvent/ReadyInside are evaluated at every event and TLC infers a consistent item binding for every granted retrieval (a grant no item can back is a C02 rejection).",
    ref="5 C02, 4.3"),
- "C04": dict(engine="store", technique="TLC model checking of Store.tla (M_C04_*) + TLC trace validation (T_C04_Put/T_C04_Get at every end of instant) on graph walks and random histories of the real classes",
+ "C04": dict(engine="store", technique="TLC model checking of Store.tla (M_C04_*, all kinds incl. the slotted belt store with its admission spacing) + TLC trace validation (T_C04_Put/T_C04_Get at every end of instant) on graph walks and random histories of the real classes",
    text="No lost wake-up: at every state of the model in which nothing is due, and at every recorded end-of-instant of the real object (after every call when no kernel event with a listener is left), no head-of-line request is pending while it could be served.",
    ref="5 C04"),
  "C05": dict(engine="store", technique="TLC model checking (M_C05_Queues, M_C05_HeadOnly) + TLC trace validation of the action property T_C05_GrantOrder on real traces",
@@ -33,7 +33,7 @@ CLAIMED = {
  "C03": dict(engine="factory", technique="TLC model checking of Factory.tla (all same-instant interleavings; F_C03_OnePlace/Counts/Quiescent) + TLC trace validation of recorded real factory runs (Trace_Factory.tla, T_C03_*)",
    text="Item conservation across the factory: in the design model every created item has exactly one place in every reachable state of every enumerated configuration under every same-instant ordering; for the implementation, every recorded run of a real factory (systematic families + seeded random configurations incl. fan-in/out, fleets, LIFO, combiner/splitter, conveyors) is folded into a ledger by TLC and compared at every end of instant with the independently observed contents of every edge, pallet and node reference and with the statistics counters.",
    ref="5 C03, 3.5, 4.4"),
- "C08": dict(engine="factory", technique="TLC model checking of Factory.tla (F_C08_Cap) + TLC trace validation (T_C08_Cap, T_C08_Offer, T_C08_DrawOnce, T_C08_DrawnAtPull, T_C08_OfferedWhenDue) on recorded real runs with harness-supplied, logged delay callables",
+ "C08": dict(engine="factory", technique="TLC model checking of Factory.tla (F_C08_Cap) + TLC trace validation (T_C08_Cap, T_C08_Offer, T_C08_DrawOnce, T_C08_DrawnAtPull, T_C08_OfferedWhenDue, T_C08_HeldOnlyIfFull) on recorded real runs with harness-supplied, logged delay callables",
    text="Machine holds at most work_capacity items; every unit of work (machine item, splitter pallet, combiner pallet) is first offered downstream exactly at pull/draw time + the delay drawn once for it; judged on every event of every recorded real run and, for capacity, on every interleaving of the design model.",
    ref="5 C08"),
  "C09": dict(engine="factory", technique="TLC model checking of Factory.tla (F_C09_*) + TLC trace validation (T_C09_BlockingNoDiscard, T_C09_NonBlockingNow, T_C09_Decision, T_C09_DiscardByOne)",
@@ -51,13 +51,13 @@ CLAIMED = {
  "C17": dict(engine="factory", technique="TLC trace validation: ground-truth state-time integrals folded in TLA+ from the call log vs the finalised statistics (T_C17_NonNeg, T_C17_SumT, T_C17_Setup, T_C17_Truth)",
    text="After finalisation at T (round, non-round, before the first item) the per-state totals are non-negative, partition T (machine: both groups and the occupancy histogram), charge the set-up period, and equal the time the ledger says the node was processing / blocked / idle. Exact on the dyadic time grid.",
    ref="5 C17"),
- "C18": dict(engine="factory", technique="TLC trace validation (T_C18_Counters, T_C18_CounterEvents, T_C18_AvgOccupancy with the occupancy integral computed in TLA+, T_C18_CycleTime, T_C18_Monotone, T_C18_CreationStamp)",
+ "C18": dict(engine="factory", technique="TLC trace validation (T_C18_Counters, T_C18_CounterEvents, T_C18_AvgOccupancy and the interim report T_C18_AvgOccupancyMid with the occupancy integral computed in TLA+, T_C18_CycleTime, T_C18_Monotone, T_C18_CreationStamp)",
    text="Counters equal ledger counts, time-averaged occupancy x T x 1000 equals 1000 x the exact integral of the ledger occupancy within 1 unit, sink cycle time equals the sum of reception minus stamped creation, timestamps are ordered; on every recorded run incl. fleet and conveyor edges.",
    ref="5 C18"),
  "C20": dict(engine="factory", technique="TLC model checking of Factory.tla with an actions-per-instant bound (F_C20_FiniteInstant) + TLC judgement of the outcome of every enumerated valid / invalid configuration run on the real classes (T_C20_NoCrash, T_C20_FiniteInstant, T_C20_Rejects)",
    text="Every enumerated valid configuration runs to T without exception and with a bounded number of kernel events per instant; every configuration of the six listed invalid classes is rejected at construction or by an error during the run. One recorded known finding (conveyor can_put/can_get).",
    ref="5 C20"),
- "C12": dict(engine="belt", technique="TLC model checking of the positional reference model ConveyorRef.tla (R_C12_*; it also proves the closed forms the trace oracle uses) + TLC trace validation (Trace_Conveyor.tla, T_C12_*) of scripted producer/consumer runs of the real continuous and slotted conveyors",
+ "C12": dict(engine="belt", technique="TLC model checking of the positional reference model ConveyorRef.tla (R_C12_*; it also proves the closed forms the trace oracle uses) and of the slotted belt store as a kind of Store.tla (M_C12_Travel; its exported graph is walked on the real class) + TLC trace validation (Trace_Conveyor.tla, T_C12_*) of scripted producer/consumer runs of the real continuous and slotted conveyors",
    text="Order, capacity, entry spacing, minimum travel time and exact travel time when never stalled: invariants / action properties of the reference conveyor for several geometries and both modes; on the implementation every event of every scripted run (regular, bursty, irregular arrivals on the tick grid x immediate / late / mixed service x 3 geometries x both classes x both modes + seeded random scripts) is judged by TLC. One recorded known finding (two grants in one instant).",
    ref="5 C12, 3.4"),
  "C13": dict(engine="belt", technique="TLC model checking of ConveyorRef.tla (R_C13_*: frozen belt, close-up, no overlap, and the closed forms offer = enter + L + stalled time / offer = max(enter + L, take(pred) + Slot)) + TLC trace validation (T_C13_NoAdmit, T_C13_Frozen, T_C13_CloseUp, T_C13_AdmitToCap) of runs of the real conveyors",
